@@ -81,6 +81,34 @@ def c16_2(ctx):
         out.append(ctx.ok(spec, "checksum is computed over the stored descriptor text", cs[0], mod, key="over-text"))
     else:
         out.append(ctx.bad(spec, "checksum is not computed over the stored descriptor text", fn, mod, key="over-text"))
+    # the origin path, fingerprint and branch of every key record reach the text exactly as supplied: the checksum is
+    # defined over the characters of the descriptor, so rewriting `'` to `h`, changing case or stripping changes which
+    # descriptors verify (Core's own checksum for 48'/1'/0'/2' no longer matches and h/' substitutions go undetected)
+    cfg = cfg_of(fn)
+    recs = []
+    for n in cfg.stmts(("stmt",)):
+        a = n.ast
+        if isinstance(a, ast.Expr) and isinstance(a.value, ast.Call) and call_name(a.value) == "append" and a.value.args and isinstance(a.value.args[0], ast.Dict):
+            recs.append((n, a.value.args[0]))
+    if not recs:
+        out.append(ctx.err(spec, "the saved key-record dict is not recognised", fn, mod))
+        return out
+    for n, d in recs:
+        for k, v in zip(d.keys, d.values):
+            if not (isinstance(k, ast.Constant) and k.value in ("path", "xfp", "account_index")):
+                continue
+            ex = expand(fn, n.id, v, depth=6)
+            calls = [c for c in ast.walk(ex) if isinstance(c, ast.Call) and isinstance(c.func, ast.Attribute) and c.func.attr in
+                     ("replace", "lower", "upper", "strip", "lstrip", "rstrip", "casefold", "title", "translate", "format")]
+            src_ok = ast.unparse(ex) in ("key_record.get('%s')" % k.value, "key_record['%s']" % k.value)
+            if src_ok:
+                out.append(ctx.ok(spec, "key record field `%s` is stored exactly as supplied" % k.value, v, mod, key="verbatim:" + k.value))
+            elif calls:
+                out.append(ctx.bad(spec, "key record field `%s` is rewritten (`%s`) before the descriptor text and its checksum are built: a descriptor in another notation "
+                                         "(e.g. 48'/1'/0'/2' with Bitcoin Core's checksum) no longer verifies or round-trips" % (k.value, ast.unparse(calls[0])[:80]), v, mod,
+                                   key="verbatim:" + k.value))
+            else:
+                out.append(ctx.err(spec, "origin of key record field `%s` not recognised: `%s`" % (k.value, ast.unparse(ex)[:80]), v, mod))
     return out
 
 
@@ -207,13 +235,23 @@ def c16_5(ctx):
     mod, fn = rl.get(ctx, spec)
     cfg = cfg_of(fn)
     t = [n for n in cfg.tests() if "is_change" in ast.unparse(n.ast) and n.loops]
+    arms = {}
+    if t:
+        for s, l in cfg.succ[t[0].id]:
+            a = cfg.nodes[s].ast
+            if isinstance(a, ast.Assign):
+                arms[l] = a.value
+    else:
+        # conditional expression: account = X if is_change else Y
+        for n in cfg.stmts(("stmt",)):
+            a = n.ast
+            if isinstance(a, ast.Assign) and isinstance(a.value, ast.IfExp) and "is_change" in ast.unparse(a.value.test) and n.loops:
+                pos = not (isinstance(a.value.test, ast.UnaryOp) and isinstance(a.value.test.op, ast.Not))
+                arms[pos] = a.value.body
+                arms[not pos] = a.value.orelse
+                t = [n]
     if not t:
         raise AnalysisError("get_address: is_change test not found")
-    arms = {}
-    for s, l in cfg.succ[t[0].id]:
-        a = cfg.nodes[s].ast
-        if isinstance(a, ast.Assign):
-            arms[l] = a.value
     if len(arms) != 2:
         raise AnalysisError("get_address: account selection not recognised")
     f = Folder(ctx.repo, mod.name)
@@ -256,6 +294,12 @@ def c16_6(ctx):
     return [rl.guard(ctx, spec, match, what="threshold greater than the number of keys is refused", key="m<=n")]
 
 
+def c16_7(ctx):
+    """addresses exist for every unhardened offset / branch: HDPublicKey.child accepts exactly [0, 2^31 - 1]"""
+    from rules.C08 import c08_1
+    return c08_1(ctx)
+
+
 OBLIGATIONS = [
     ("C16.1", "TABLE", c16_1),
     ("C16.2", "GUARD", c16_2),
@@ -263,5 +307,6 @@ OBLIGATIONS = [
     ("C16.4", "ORDER", c16_4),
     ("C16.5", "AFFINE", c16_5),
     ("C16.6", "GUARD", c16_6),
+    ("C16.7", "RANGE accept-set", c16_7),
 ]
 FLOORS = {"C16.1": 5, "C16.2": 2, "C16.3": 3, "C16.4": 4, "C16.5": 3}
